@@ -432,6 +432,37 @@ def s5c(ctx, rep, clause="S5"):
         raise AnchorError(f"HyperbandBracketManager: {n} calls with a skip_rungs argument (5 confirmed)")
 
 
+def s7b(ctx, rep):
+    """None is how 'not given' travels from the scheduler's arguments to successive_halving_rung_levels (where a reduction
+    factor takes precedence over a rung increment): neither may be defaulted on the way, except the one place that
+    defaults the factor when BOTH are missing"""
+    from .common import dom_guard
+    P = ctx.P
+    mod = P.cls("HyperbandScheduler").module
+    dd = None
+    for st in mod.tree.body:
+        if isinstance(st, ast.Assign) and U(st.targets[0]) == "_DEFAULT_OPTIONS":
+            dd = dict_items(st.value)
+            node = st
+    if dd is None:
+        raise AnchorError("hyperband.py: _DEFAULT_OPTIONS not found")
+    bad = sorted(set(dd) & {"reduction_factor", "rung_increment"})
+    rep.put(not bad, "S7", "agreement", "HyperbandScheduler: reduction_factor / rung_increment have no blanket default", f"{mod.relpath}:{node.lineno}", None, "",
+            f"_DEFAULT_OPTIONS defaults {bad}: the value is then never None, the rung-level function lets it take precedence and a rung_increment "
+            "(or factor) given by the user is silently ignored - decisions are taken at other levels with other quantiles than documented")
+    init = P.method("HyperbandScheduler", "__init__")
+    ci = cfg_of(init)
+    dfl = [n.id for n in ci.nodes if n.kind == "stmt" and isinstance(n.ast, ast.Assign) and isinstance(n.ast.targets[0], ast.Subscript)
+           and U(n.ast.targets[0].slice) in ("'reduction_factor'", "'rung_increment'")]
+    ok = True
+    for nid in dfl:
+        at = dom_guard(ctx, init, nid)
+        ok = ok and any(a[0] == "is" and a[3] is True and "reduction_factor" in a[1] for a in at) and any(a[0] == "is" and a[3] is True and "rung_increment" in a[1] for a in at)
+    rep.put(ok, "S7", "guarded_by", "HyperbandScheduler.__init__: a default factor is filled in only if neither factor nor increment is given", init,
+            ci.nodes[dfl[0]].ast if dfl else None, f"{len(dfl)} defaulting store(s)",
+            "a default reduction factor / increment is filled in although the user gave the other one")
+
+
 def s11(ctx, rep):
     """found thin by the generic mutation audit"""
     from . import c15
@@ -468,5 +499,6 @@ def run(ctx, rep, tier="quick"):
     s8(ctx, rep)
     s9(ctx, rep)
     s10(ctx, rep)
+    s7b(ctx, rep)
     s5c(ctx, rep)
     s11(ctx, rep)
